@@ -1,0 +1,184 @@
+//! Verification hook (only compiled with `--cfg gamedig_verif`).
+//!
+//! Routes all socket I/O of the crate through a thread-local, harness-supplied
+//! [Transport] when one is installed, and through the real sockets otherwise.
+//! It also re-exports a few crate-private items so that an external harness
+//! can exercise them directly. Nothing here is compiled in a normal build.
+#![cfg(gamedig_verif)]
+
+use crate::protocols::types::TimeoutSettings;
+use crate::socket::Socket;
+use crate::GDResult;
+use std::cell::RefCell;
+use std::net::SocketAddr;
+
+pub use crate::buffer::{
+    Buffer,
+    BufferRead,
+    StringDecoder,
+    SwitchEndian,
+    Utf16Decoder,
+    Utf8Decoder,
+    Utf8LengthPrefixedDecoder,
+};
+pub use crate::socket::{Socket as SocketTrait, TcpSocketImpl, UdpSocketImpl};
+pub use crate::utils::{error_by_expected_size, retry_on_timeout, u8_lower_upper};
+
+/// Public wrappers around the crate-private Minecraft codecs.
+#[cfg(feature = "games")]
+pub mod minecraft_codec {
+    use crate::buffer::Buffer;
+    use crate::GDResult;
+    use byteorder::ByteOrder;
+
+    pub fn get_varint<B: ByteOrder>(buffer: &mut Buffer<B>) -> GDResult<i32> {
+        crate::games::minecraft::types::get_varint(buffer)
+    }
+    pub fn as_varint(value: i32) -> Vec<u8> { crate::games::minecraft::types::as_varint(value) }
+    pub fn get_string<B: ByteOrder>(buffer: &mut Buffer<B>) -> GDResult<String> {
+        crate::games::minecraft::types::get_string(buffer)
+    }
+    pub fn as_string(value: &str) -> GDResult<Vec<u8>> { crate::games::minecraft::types::as_string(value) }
+}
+
+/// Which kind of socket the crate asked for.
+#[derive(Debug, Clone, Copy, PartialEq, Eq, Hash)]
+pub enum Kind {
+    Udp,
+    Tcp,
+}
+
+/// What the harness implements. All calls happen on the thread that runs the
+/// query.
+pub trait Transport {
+    /// A socket is being created; returns a connection id or a connect error.
+    fn connect(&mut self, kind: Kind, address: &SocketAddr, timeouts: &Option<TimeoutSettings>) -> GDResult<u64>;
+    fn send(&mut self, conn: u64, data: &[u8]) -> GDResult<()>;
+    fn receive(&mut self, conn: u64, size: Option<usize>) -> GDResult<Vec<u8>>;
+    fn close(&mut self, conn: u64);
+}
+
+thread_local! {
+    static TRANSPORT: RefCell<Option<Box<dyn Transport>>> = const { RefCell::new(None) };
+}
+
+/// Install a transport for the current thread (replacing any previous one).
+pub fn install(transport: Box<dyn Transport>) { TRANSPORT.with(|t| *t.borrow_mut() = Some(transport)); }
+
+/// Remove (and return) the current thread's transport.
+pub fn uninstall() -> Option<Box<dyn Transport>> { TRANSPORT.with(|t| t.borrow_mut().take()) }
+
+fn with_transport<R>(f: impl FnOnce(Option<&mut Box<dyn Transport>>) -> R) -> R {
+    TRANSPORT.with(|t| f(t.borrow_mut().as_mut()))
+}
+
+struct Scripted {
+    conn: u64,
+    address: SocketAddr,
+}
+
+impl Scripted {
+    fn new(kind: Kind, address: &SocketAddr, timeouts: &Option<TimeoutSettings>) -> Option<GDResult<Self>> {
+        with_transport(|t| {
+            t.map(|t| {
+                t.connect(kind, address, timeouts).map(|conn| {
+                    Self {
+                        conn,
+                        address: *address,
+                    }
+                })
+            })
+        })
+    }
+
+    fn send(&mut self, data: &[u8]) -> GDResult<()> {
+        with_transport(|t| {
+            match t {
+                Some(t) => t.send(self.conn, data),
+                None => Err(crate::GDErrorKind::PacketSend.context("verif transport removed")),
+            }
+        })
+    }
+
+    fn receive(&mut self, size: Option<usize>) -> GDResult<Vec<u8>> {
+        with_transport(|t| {
+            match t {
+                Some(t) => t.receive(self.conn, size),
+                None => Err(crate::GDErrorKind::PacketReceive.context("verif transport removed")),
+            }
+        })
+    }
+}
+
+impl Drop for Scripted {
+    fn drop(&mut self) {
+        let conn = self.conn;
+        // The thread local may already be gone during thread teardown.
+        let _ = TRANSPORT.try_with(|t| {
+            if let Ok(mut t) = t.try_borrow_mut() {
+                if let Some(t) = t.as_mut() {
+                    t.close(conn);
+                }
+            }
+        });
+    }
+}
+
+macro_rules! verif_socket {
+    ($name: ident, $real: ty, $kind: expr) => {
+        pub struct $name(Inner<$real>);
+
+        impl Socket for $name {
+            fn new(address: &SocketAddr, timeout_settings: &Option<TimeoutSettings>) -> GDResult<Self> {
+                match Scripted::new($kind, address, timeout_settings) {
+                    Some(scripted) => Ok(Self(Inner::Scripted(scripted?))),
+                    None => Ok(Self(Inner::Real(<$real>::new(address, timeout_settings)?))),
+                }
+            }
+
+            fn apply_timeout(&self, timeout_settings: &Option<TimeoutSettings>) -> GDResult<()> {
+                match &self.0 {
+                    Inner::Real(s) => s.apply_timeout(timeout_settings),
+                    Inner::Scripted(_) => Ok(()),
+                }
+            }
+
+            fn send(&mut self, data: &[u8]) -> GDResult<()> {
+                match &mut self.0 {
+                    Inner::Real(s) => s.send(data),
+                    Inner::Scripted(s) => s.send(data),
+                }
+            }
+
+            fn receive(&mut self, size: Option<usize>) -> GDResult<Vec<u8>> {
+                match &mut self.0 {
+                    Inner::Real(s) => s.receive(size),
+                    Inner::Scripted(s) => s.receive(size),
+                }
+            }
+
+            fn port(&self) -> u16 {
+                match &self.0 {
+                    Inner::Real(s) => s.port(),
+                    Inner::Scripted(s) => s.address.port(),
+                }
+            }
+
+            #[cfg(feature = "packet_capture")]
+            fn local_addr(&self) -> std::io::Result<SocketAddr> {
+                match &self.0 {
+                    Inner::Real(s) => s.local_addr(),
+                    Inner::Scripted(s) => Ok(s.address),
+                }
+            }
+        }
+    };
+}
+
+enum Inner<R> {
+    Real(R),
+    Scripted(Scripted),
+}
+
+verif_socket!(VerifUdpSocket, crate::socket::UdpSocketImpl, Kind::Udp);
+verif_socket!(VerifTcpSocket, crate::socket::TcpSocketImpl, Kind::Tcp);
